@@ -19,14 +19,22 @@
 (* Named deviation D1 (present in the code unless FixD1): record() counts a    *)
 (* measurement (count, min, max, sum) BEFORE the scale-underflow early return, *)
 (* so a discarded measurement is still counted.                                *)
-EXTENDS ExpoModel, TLC, Json
+(*                                                                             *)
+(* Output path (HistOutput): Collect names the class of destination memory it  *)
+(* writes into; ReportIndep states, for every explored accumulator state and   *)
+(* every previous occupant of the slot, that the reported point is the         *)
+(* accumulator's and nothing else.                                             *)
+EXTENDS ExpoModel, HistOutput, TLC, Json
 
 CONSTANTS Vals,        \* sequence of abstract values (see ExpoModel)
           MaxSize,     \* AggregationBase2ExponentialHistogram.MaxSize
           MaxScale,    \* AggregationBase2ExponentialHistogram.MaxScale (>= -10 here)
           Cumulative,  \* reader temporality
           FixD1,       \* TRUE: accounting moved after the underflow check
-          MaxSteps
+          MaxSteps,
+          NoSum,       \* the stream collects no sum (UpDownCounter / Gauge instrument kinds)
+          NoMinMax,    \* AggregationBase2ExponentialHistogram.NoMinMax
+          OutVariant   \* "code", or a named faulty output path (HistOutput)
 
 VARIABLES hist,        \* indices into Vals recorded into the current point, in order
           impl,        \* implementation-shaped accumulator
@@ -117,13 +125,13 @@ StepRecord(st0, v) ==
             IN Account(st2, v)
 
 -----------------------------------------------------------------------------
-Init == hist = <<>> /\ impl = Fresh /\ steps = 0 /\ act = [op |-> "Init", i |-> 0, path |-> ""]
+Init == hist = <<>> /\ impl = Fresh /\ steps = 0 /\ act = [op |-> "Init", i |-> 0, path |-> "", d |-> ""]
 
 DoRec(i, L) == /\ steps < MaxSteps
                /\ impl' = StepRecord(impl, Vals[i])
                /\ hist' = Append(hist, i)
                /\ steps' = steps + 1
-               /\ act' = [op |-> "Record", i |-> i, path |-> L]
+               /\ act' = [op |-> "Record", i |-> i, path |-> L, d |-> ""]
 
 (* one action per path through record(), so that TLC's coverage shows which are exercised *)
 RecZero == \E i \in 1..Len(Vals) : /\ PathOf(impl, Vals[i]) = "zero"
@@ -145,9 +153,10 @@ RecDownAppend == \E i \in 1..Len(Vals) : /\ PathOf(impl, Vals[i]) = "down-append
 RecUnderflow == \E i \in 1..Len(Vals) : /\ PathOf(impl, Vals[i]) = "underflow"
                                           /\ DoRec(i, "underflow")
 
-Collect == /\ steps < MaxSteps
+Collect == \E d \in ODestClasses :
+           /\ steps < MaxSteps
            /\ steps' = steps + 1
-           /\ act' = [op |-> "Collect", i |-> 0, path |-> "collect"]
+           /\ act' = [op |-> "Collect", i |-> 0, path |-> "collect", d |-> d]
            /\ IF Cumulative THEN UNCHANGED <<hist, impl>>
               ELSE hist' = <<>> /\ impl' = Fresh        \* delta: the point is forgotten
 
@@ -165,8 +174,14 @@ ImplPt(st) ==
         noff |-> IF st.neg.c = <<>> THEN 0 ELSE st.neg.off, neg |-> st.neg.c,
         zero |-> st.zero, count |-> st.count, min |-> st.min, max |-> st.max, sumq |-> st.sumq]
 
+(* what a reader reports for a point, given what the stream collects *)
+Flag(p) == IF ~p.present THEN p
+           ELSE [p EXCEPT !.min = IF NoMinMax THEN -2 ELSE @, !.max = IF NoMinMax THEN -2 ELSE @,
+                          !.sumq = IF NoSum THEN 0 ELSE @]
+Obs(p) == [sumz |-> p.sumq = 0] @@ Flag(p)
+
 View == <<hist, impl, steps>>
-EdgeState(h, st, n) == [hist |-> h, steps |-> n, pt |-> Ref(h), ipt |-> ImplPt(st)]
+EdgeState(h, st, n) == [hist |-> h, steps |-> n, pt |-> Flag(Ref(h)), ipt |-> Flag(ImplPt(st))]
 EmitEdge == PrintT("EDGE " \o ToJson([from |-> EdgeState(hist, impl, steps), act |-> act',
                                       to |-> EdgeState(hist', impl', steps')]))
 
@@ -180,10 +195,14 @@ ImplIsRef ==
      ELSE ImplPt(impl) = [r EXCEPT !.count = Len(H), !.min = MinR(H), !.max = MaxR(H), !.sumq = SumK(H)]
 
 (* the reference point satisfies the statement (consistency of the two halves of ExpoModel) *)
-RefOK == ExpoClauses(Ref(hist), HVals(hist), MaxScale, MaxSize, MaxScale, TRUE) = {}
+RefOK == ExpoClauses(Obs(Ref(hist)), HVals(hist), MaxScale, MaxSize, MaxScale, TRUE, NoSum, NoMinMax) = {}
 
 (* the statement, on the implementation-shaped accumulator: fails under D1 (NoDeviation config) *)
-ContractInv == ExpoClauses(ImplPt(impl), HVals(hist), MaxScale, MaxSize, MaxScale, TRUE) = {}
+ContractInv == ExpoClauses(Obs(ImplPt(impl)), HVals(hist), MaxScale, MaxSize, MaxScale, TRUE, NoSum, NoMinMax) = {}
+
+(* the reported point is a function of the accumulator only, whatever the destination held;
+   together with ImplIsRef: what is reported is the reference point *)
+ReportIndep == OReportIndepE(impl, MaxSize, NoSum, NoMinMax, OutVariant)
 
 ScaleMonotone == [][(act'.op = "Record" /\ impl.live) => impl'.scale <= impl.scale]_vars
 SizeBound == Len(impl.pos.c) <= MaxSize /\ Len(impl.neg.c) <= MaxSize
